@@ -106,8 +106,16 @@ def placement_programs(n_prefix):
                 yield {'steps': pre['steps'] + [{'k': last, 'rel': None}]}
 
 
+# a registry-driven wait whose key is assigned for the first time only after the times were read once (through the same objects)
+LATE_SET = [
+    {'steps': [_st(['R', 0, 'ALL', 'unset']), _st(['W', 0, 'ALL']), _st(['W', 1, 'ALL'], ['E', 0])]},
+    {'steps': [_st(['W', 0, 'ALL']), _st(['R', 0, 'ALL', 'unset'], ['F', 0]), _st(['G', 'Rx180', [0]], ['F', 1]), _st(['W', 1, 'ALL'], ['S', 1])]},
+    {'steps': [_st(['W', 0, 'ALL']), _st(_sub([_st(['R', 0, 'ALL', 'unset']), _st(['W', 0, 'ALL'])])), _st(['W', 0, 'ALL'])]},
+]
+
+
 def jobs(tier, seed):
-    out = [{'prog': p} for p in NESTED_REPS]
+    out = [{'prog': p} for p in NESTED_REPS] + [{'prog': p, 'late_set': True} for p in LATE_SET]
     out += [{'prog': p} for p in gen.sample(placement_programs(4), 1500 if tier == 'quick' else 100000, seed + 7)]
     if tier == 'quick':
         out += [{'prog': p} for p in gen.programs_upto(2, ALPHA)]
@@ -208,6 +216,14 @@ def run(ctx, params):
         ops = circuit.operations
         ctx.observe('n_ops', len(ops))
         check_program(ctx, built.nodes, circuit.circuit_structure)
+        if params.get('late_set'):
+            # "all duration assignments": the assignment arrives after a first reading; the same objects are read again, no listing in between
+            for i, (key, node) in enumerate(built.unset_keys.items()):
+                v = ctx.real(f'v_late{i}', lo=0)
+                built.registry.set_registry_at(key, v)
+                node.dur = v
+            check_program(ctx, built.nodes, circuit.circuit_structure, prefix='C01.after_assignment')
+            return
         unrolled = circuit.apply_modifiers()
         uops = unrolled.operations
         ctx.observe('n_unrolled', len(uops))
